@@ -24,6 +24,7 @@ EXPLANATION = (
     'filter looks keys up by the full view (no string_view::data() into a NUL-terminated parameter). C08.R7 (last-write-wins '
     'stores): attribute setters store with an overwriting form (operator[] assignment / insert_or_assign), never emplace/insert.')
 EXPLANATION += ' C08.R1 also checks that every scalar value hash is std::hash<T> of the value itself (not of a copy of its representation), that array hashes fold every element, and that equality of two sets compares the sorted maps element-wise. C08.R5 (exposure of finding D7b): while Set replaces the overflow value, no table created with a configured limit is filled through Set.'
+EXPLANATION += " C08.R4 finds the overflow predicate and the overflow-series insertion by what they do (a bool member relating the table size to the limit; a non-overwriting insertion under the overflow key), not by name. C08.R6's insertion gate is a decision table over 'processor is non-null' x 'isPresent returned true', evaluated through callbacks and file-local helpers. C08.R7 accepts emplace followed by an assignment to the found element on the not-inserted outcome."
 NOT_DECIDED = 'hash collision behaviour; conservation of totals through overflow across cycles (arithmetic over histories).'
 
 NON_OVERWRITING = ('emplace', 'emplace_hint', 'insert', 'try_emplace')
